@@ -497,11 +497,23 @@ class Beam3DScn(BeamScn):
         with _quiet():
             sec = Domain(Point(-0.05, -0.08), Point(0.05, 0.08)).Mesh_2D()
         line = Line(Point(0, 0), Point(1.2, 0))
-        self._beam = Models.Beam.Isotropic(3, line, sec, p["E"], p["v"], yAxis=tuple(p["yAxis"]))
+        with _quiet():
+            self._beam = Models.Beam.Isotropic(3, line, sec, p["E"], p["v"], yAxis=tuple(p["yAxis"]))
         return Models.Beam.BeamStructure([self._beam])
 
     def set_param(self, model, name, value):
         setattr(model.beams[0], name, tuple(value) if name == "yAxis" else value)
+
+    # "yAxis_auto": the section axis is re-assigned with a vector collinear with the member (legal: the library then picks the axis itself)
+    extra_ops = ["yAxis_auto"]
+
+    def apply(self, simu, cfg, op, live):
+        if op == "yAxis_auto":
+            cfg["params"]["yAxis"] = (1.0, 0.0, 0.0)
+            with _quiet():
+                self.set_param(live["model"], "yAxis", (1.0, 0.0, 0.0))
+            return
+        return super().apply(simu, cfg, op, live)
 
     def apply_bc(self, simu, cfg):
         simu.Bc_Init()
